@@ -8,32 +8,38 @@ fn main() {}
 mod harnesses {
     use super::*;
 
-    /// codepoint_len returns the width implied by the leading byte, for EVERY byte (loop-free: a complete proof)
-    #[kani::proof]
+    // Function contracts (attached to the extracted functions by tools/kani_extract.py), each proved for EVERY argument value:
+    // loop-free bodies over the full domain, hence complete proofs of the contracts.
+    #[kani::proof_for_contract(codepoint_len)]
     fn codepoint_len_all_bytes() {
         let b: u8 = kani::any();
-        let want = if b < 0x80 { 1 } else if b < 0xe0 { 2 } else if b < 0xf0 { 3 } else { 4 };
-        assert!(codepoint_len(b) == want);
+        codepoint_len(b);
     }
 
-    /// is_special is exactly the 15-character meta set, for EVERY char
-    #[kani::proof]
+    #[kani::proof_for_contract(is_special)]
     fn is_special_all_chars() {
         let c: char = kani::any();
-        let want = matches!(c, '\\' | '.' | '+' | '*' | '?' | '(' | ')' | '|' | '[' | ']' | '{' | '}' | '^' | '$' | '#');
-        assert!(is_special(c) == want);
+        is_special(c);
     }
 
-    #[kani::proof]
+    #[kani::proof_for_contract(is_digit)]
+    fn is_digit_all_bytes() {
+        let b: u8 = kani::any();
+        is_digit(b);
+    }
+
+    /// is_hex_digit's contract, with is_digit replaced by its verified contract (modular)
+    #[kani::proof_for_contract(is_hex_digit)]
+    #[kani::stub_verified(is_digit)]
     fn digit_predicates_all_bytes() {
         let b: u8 = kani::any();
-        assert!(is_digit(b) == (b'0'..=b'9').contains(&b));
-        assert!(is_hex_digit(b) == (b as char).is_ascii_hexdigit());
+        is_hex_digit(b);
     }
 
     /// next_utf8 / prev_codepoint_ix on every valid UTF-8 string of up to 4 bytes: BOUNDED (string length), unwinding 6
     #[kani::proof]
     #[kani::unwind(6)]
+    #[kani::stub_verified(codepoint_len)]
     fn utf8_steps_len4() {
         let bytes: [u8; 4] = kani::any();
         let n: usize = kani::any();
